@@ -185,6 +185,18 @@ Fixpoint enum_range (fuel : nat) (s e step : Z) : list Z :=
   | O => []
   | S f => if s <=? e then s :: enum_range f (s + step) e step else []
   end.
+(* the same loop in the code's int64 arithmetic: as repaired (b90faa2: leaves before `s += step` would wrap) and as
+   it was (F19: wraps to MinInt64 and goes on).  Proofs/ParsersProof: the repaired loop = enum_range on all of int64. *)
+Fixpoint enum_range_i64 (fuel : nat) (s e step : Z) : list Z :=
+  match fuel with
+  | O => []
+  | S f => if s <=? e then s :: (if (two63 - 1 - step) <? s then [] else enum_range_i64 f (wrap_i64 (s + step)) e step) else []
+  end.
+Fixpoint enum_range_pinned (fuel : nat) (s e step : Z) : list Z :=
+  match fuel with
+  | O => []
+  | S f => if s <=? e then s :: enum_range_pinned f (wrap_i64 (s + step)) e step else []
+  end.
 Definition expand_desc (d : Z * Z * Z) : pres (list Z) :=
   let '(st, e, sp) := d in
   if e <? st then POk []
